@@ -9,6 +9,7 @@ import (
 	"fmt"
 	"io"
 	"log/slog"
+	"math"
 	"net/http"
 	"strings"
 
@@ -150,7 +151,7 @@ func (h *HttpServer) readHTTPBody(r *http.Request) ([]byte, error) {
 	var body []byte
 	var err error
 	if limit > 0 {
-		body, err = io.ReadAll(io.LimitReader(r.Body, limit+1))
+		body, err = io.ReadAll(io.LimitReader(r.Body, capPlusOne(limit)))
 	} else {
 		body, err = io.ReadAll(r.Body)
 	}
@@ -173,12 +174,31 @@ func (h *HttpServer) readHTTPBody(r *http.Request) ([]byte, error) {
 		if requestCapApplied && (decompressedCap <= 0 || limit < decompressedCap) {
 			decompressedCap = limit
 		} else if decompressedCap <= 0 && limit > 0 {
-			decompressedCap = limit * 16
+			decompressedCap = capTimes16(limit)
 		}
 		return decompressBounded(encoding, body, decompressedCap)
 	default:
 		return nil, &unsupportedEncodingError{Encoding: encoding}
 	}
+}
+
+// capPlusOne returns n+1 for reading one byte past a size cap, saturating at
+// math.MaxInt64: n+1 would wrap negative there, and io.LimitReader treats a
+// non-positive bound as "read nothing", so a valid body would be read as empty.
+func capPlusOne(n int64) int64 {
+	if n == math.MaxInt64 {
+		return n
+	}
+	return n + 1
+}
+
+// capTimes16 returns n*16, saturating at math.MaxInt64 instead of wrapping to
+// a negative (unlimited) or small positive (refusing valid bodies) cap.
+func capTimes16(n int64) int64 {
+	if n > math.MaxInt64/16 {
+		return math.MaxInt64
+	}
+	return n * 16
 }
 
 func (h *HttpServer) writeHttpError(w http.ResponseWriter, statusCode int, err error, schema *arrow.Schema) {
